@@ -68,3 +68,365 @@ Proof.
     rewrite hs_line_with_buf. rewrite <- app_assoc. cbn [app].
     replace (zlen (hs_buf st) + 1 + zlen body + 2) with (zlen (hs_buf st) + (1 + zlen body) + 2) by lia. reflexivity.
 Qed.
+
+(* ---------------- hs_line on the lines hs_print produces ---------------- *)
+Lemma list_set_mid : forall (X Y : list Z) c v, list_set (X ++ c :: Y) (zlen X) v = Some (X ++ v :: Y).
+Proof.
+  intros X Y c v. unfold list_set, buf_write. pose proof (zlen_nonneg _ X).
+  destruct (0 <=? zlen X) eqn:E1; [|lia]. change (zlen [v]) with 1.
+  rewrite zlen_app, zlen_cons. pose proof (zlen_nonneg _ Y).
+  destruct (zlen X + 1 <=? zlen X + (1 + zlen Y)) eqn:E2; [|lia]. cbn [andb]. f_equal.
+  rewrite firstn_app_exact_z. cbn [length app]. f_equal. f_equal.
+  unfold zlen. rewrite Nat2Z.id. replace (length X + 1)%nat with (length (X ++ [c])) by (rewrite app_length; reflexivity).
+  replace (X ++ c :: Y) with ((X ++ [c]) ++ Y) by (rewrite <- app_assoc; reflexivity). apply skipn_app_exact.
+Qed.
+
+Ltac decide_prefix := repeat match goal with
+  | |- context [prefix_ci ?p ?l] =>
+      let b := eval cbv in (prefix_ci p l) in
+      match b with true => change (prefix_ci p l) with true | false => change (prefix_ci p l) with false end
+  | |- context [prefix_cs ?p ?l] =>
+      let b := eval cbv in (prefix_cs p l) in
+      match b with true => change (prefix_cs p l) with true | false => change (prefix_cs p l) with false end
+  end.
+
+(* a header line "name value\r\n": the CR is overwritten by NUL *)
+Lemma cut_cr : forall (B name v : list Z),
+  list_set (B ++ name ++ v ++ crlf) (zlen B + zlen (name ++ v) + 2 - 2) 0 = Some (B ++ name ++ v ++ [0; 10]).
+Proof.
+  intros B name v. replace (zlen B + zlen (name ++ v) + 2 - 2) with (zlen (B ++ name ++ v)) by (rewrite !zlen_app; lia).
+  replace (B ++ name ++ v ++ crlf) with ((B ++ name ++ v) ++ 13 :: [10]) by (rewrite <- !app_assoc; reflexivity).
+  rewrite list_set_mid. rewrite <- !app_assoc. reflexivity.
+Qed.
+
+Section Lines.
+Variables (st : hs_state) (B v : list Z).
+Hypothesis Hls : hs_linestart st = zlen B.
+
+Let len (name : list Z) := zlen B + zlen (name ++ v) + 2.
+
+Ltac line_tac name :=
+  unfold hs_line; rewrite Hls; rewrite skipn_app_exact_z; decide_prefix;
+  rewrite ?andb_false_r; cbv iota; rewrite (cut_cr B name v); reflexivity.
+
+Lemma line_host : hs_line st (B ++ s_host ++ v ++ crlf) (len s_host) =
+  Some (mkHs (B ++ s_host ++ v ++ [0; 10]) (len s_host) (hs_path st) (Some (zlen B + 6)) (hs_origin st) (hs_key1 st) (hs_key2 st)
+             (hs_proto st) (hs_sorigin st) (hs_key st) (hs_version st) (hs_wspath st)).
+Proof. unfold len. line_tac s_host. Qed.
+
+Lemma line_origin : hs_line st (B ++ s_origin ++ v ++ crlf) (len s_origin) =
+  Some (mkHs (B ++ s_origin ++ v ++ [0; 10]) (len s_origin) (hs_path st) (hs_host st) (Some (zlen B + 8)) (hs_key1 st) (hs_key2 st)
+             (hs_proto st) (hs_sorigin st) (hs_key st) (hs_version st) (hs_wspath st)).
+Proof. unfold len. line_tac s_origin. Qed.
+
+Lemma line_key : hs_line st (B ++ s_key ++ v ++ crlf) (len s_key) =
+  Some (mkHs (B ++ s_key ++ v ++ [0; 10]) (len s_key) (hs_path st) (hs_host st) (hs_origin st) (hs_key1 st) (hs_key2 st)
+             (hs_proto st) (hs_sorigin st) (Some (zlen B + 19)) (hs_version st) (hs_wspath st)).
+Proof. unfold len. line_tac s_key. Qed.
+
+Lemma line_proto : hs_line st (B ++ s_proto ++ v ++ crlf) (len s_proto) =
+  Some (mkHs (B ++ s_proto ++ v ++ [0; 10]) (len s_proto) (hs_path st) (hs_host st) (hs_origin st) (hs_key1 st) (hs_key2 st)
+             (Some (zlen B + 24)) (hs_sorigin st) (hs_key st) (hs_version st) (hs_wspath st)).
+Proof. unfold len. line_tac s_proto. Qed.
+End Lines.
+
+Lemma take_nonzero_app0 : forall v Y, val_ok v = true -> take_nonzero (v ++ 0 :: Y) = v.
+Proof.
+  induction v as [|c v IH]; intros Y H; [reflexivity|]. cbn [val_ok forallb] in H. apply andb_true_iff in H. destruct H as [Hc Hv].
+  unfold chr_ok in Hc. apply andb_true_iff in Hc. destruct Hc as [Hc _]. apply negb_true_iff in Hc.
+  cbn [app take_nonzero]. rewrite Hc. f_equal. apply IH. exact Hv.
+Qed.
+
+Lemma cstr_at : forall X v Y o, val_ok v = true -> o = zlen X -> cstr (X ++ v ++ 0 :: Y) o = v.
+Proof. intros X v Y o H ->. unfold cstr. rewrite skipn_app_exact_z. apply take_nonzero_app0. exact H. Qed.
+
+Lemma val_ok_no_lf : forall v, val_ok v = true -> forallb (fun c => negb (c =? 10)) v = true.
+Proof.
+  induction v as [|c v IH]; intro H; [reflexivity|]. cbn [val_ok forallb] in *. apply andb_true_iff in H. destruct H as [Hc Hv].
+  unfold chr_ok in Hc. apply andb_true_iff in Hc. destruct Hc as [_ Hc]. rewrite Hc. cbn [andb]. apply IH. exact Hv.
+Qed.
+
+Lemma line_get : forall st B path, hs_linestart st = zlen B -> 1 <= zlen path -> val_ok path = true ->
+  hs_line st (B ++ s_get ++ path ++ s_http) (zlen B + zlen (s_get ++ path ++ [32; 72; 84; 84; 80; 47; 49; 46; 49]) + 2) =
+  Some (mkHs (B ++ s_get ++ path ++ 0 :: [72; 84; 84; 80; 47; 49; 46; 49; 13; 10]) (zlen B + zlen (s_get ++ path ++ [32; 72; 84; 84; 80; 47; 49; 46; 49]) + 2)
+             (Some (zlen B + 4)) (hs_host st) (hs_origin st) (hs_key1 st) (hs_key2 st) (hs_proto st) (hs_sorigin st) (hs_key st)
+             (hs_version st) (Some path)).
+Proof.
+  intros st B path Hls Hp Hv. unfold hs_line. rewrite Hls, (skipn_app_exact_z Z B). decide_prefix.
+  assert (zlen (s_get ++ path ++ [32; 72; 84; 84; 80; 47; 49; 46; 49]) = 13 + zlen path) as El
+    by (rewrite !zlen_app; change (zlen s_get) with 4; change (zlen [32; 72; 84; 84; 80; 47; 49; 46; 49]) with 9; lia).
+  rewrite El.
+  destruct (zlen B + (13 + zlen path) + 2 - zlen B >=? 16) eqn:E; [|lia]. cbn [andb].
+  replace (zlen B + (13 + zlen path) + 2 - 11) with (zlen (B ++ s_get ++ path)) by (rewrite !zlen_app; change (zlen s_get) with 4; lia).
+  replace (B ++ s_get ++ path ++ s_http) with ((B ++ s_get ++ path) ++ 32 :: [72; 84; 84; 80; 47; 49; 46; 49; 13; 10])
+    by (rewrite <- !app_assoc; reflexivity).
+  rewrite list_set_mid.
+  assert (cstr ((B ++ s_get ++ path) ++ 0 :: [72; 84; 84; 80; 47; 49; 46; 49; 13; 10]) (zlen B + 4) = path) as Ec.
+  { replace ((B ++ s_get ++ path) ++ 0 :: [72; 84; 84; 80; 47; 49; 46; 49; 13; 10]) with ((B ++ s_get) ++ path ++ 0 :: [72; 84; 84; 80; 47; 49; 46; 49; 13; 10])
+      by (rewrite <- !app_assoc; reflexivity).
+    apply cstr_at; [assumption|]. rewrite zlen_app. reflexivity. }
+  rewrite Ec. rewrite <- !app_assoc. reflexivity.
+Qed.
+
+Lemma line_version : forall st B, hs_linestart st = zlen B ->
+  hs_line st (B ++ s_version ++ s_v13 ++ crlf) (zlen B + zlen (s_version ++ s_v13) + 2) =
+  Some (mkHs (B ++ s_version ++ s_v13 ++ [0; 10]) (zlen B + zlen (s_version ++ s_v13) + 2) (hs_path st) (hs_host st) (hs_origin st)
+             (hs_key1 st) (hs_key2 st) (hs_proto st) (hs_sorigin st) (hs_key st) 13 (hs_wspath st)).
+Proof.
+  intros st B Hls. unfold hs_line. rewrite Hls, (skipn_app_exact_z Z B). decide_prefix. rewrite ?andb_false_r. cbv iota.
+  replace (zlen B + 23) with (zlen (B ++ s_version)) by (rewrite zlen_app; reflexivity).
+  replace (skipn (Z.to_nat (zlen (B ++ s_version))) (B ++ s_version ++ s_v13 ++ crlf)) with (s_v13 ++ crlf)
+    by (rewrite (app_assoc B s_version); symmetry; apply skipn_app_exact_z).
+  change (strtol10 (s_v13 ++ crlf)) with 13. change (13 mod 256) with 13. change (13 <? 128) with true. cbv iota.
+  rewrite (cut_cr B s_version s_v13). reflexivity.
+Qed.
+
+(* the empty line ends the loop (no Hixie keys) *)
+Lemma hs_loop_blank : forall tmo rest st,
+  hs_linestart st = zlen (hs_buf st) -> hs_key1 st = None -> zlen (hs_buf st) + 2 <= ws_max_handshake_len - 1 ->
+  hs_loop tmo (crlf ++ rest) st = HLDone (hs_with_buf st (hs_buf st ++ crlf)).
+Proof.
+  intros tmo rest st Hls Hk1 Hlen. unfold crlf. cbn [app hs_loop].
+  destruct (zlen (hs_buf st) <? ws_max_handshake_len - 1) eqn:E1; [|lia].
+  change (13 =? 10) with false. rewrite andb_false_r.
+  cbn [hs_loop hs_buf hs_with_buf hs_linestart]. rewrite !zlen_app. change (zlen [13]) with 1. change (zlen [10]) with 1.
+  destruct (zlen (hs_buf st) + 1 <? ws_max_handshake_len - 1) eqn:E2; [|lia].
+  rewrite Hls. replace (zlen (hs_buf st) + 1 + 1 - zlen (hs_buf st)) with 2 by lia.
+  change (2 >=? 2) with true. change (10 =? 10) with true. cbn [andb]. change (2 =? 2) with true. cbn [andb].
+  replace (Z.to_nat (zlen (hs_buf st))) with (length (hs_buf st)) by (unfold zlen; rewrite Nat2Z.id; reflexivity).
+  rewrite <- app_assoc. rewrite skipn_app_exact. cbn [app]. decide_prefix. cbv iota.
+  cbn [hs_key1 hs_with_buf]. rewrite Hk1. cbn [is_some andb]. reflexivity.
+Qed.
+
+(* ---------------- the whole request ---------------- *)
+Definition http9 : list Z := [32; 72; 84; 84; 80; 47; 49; 46; 49].
+
+Lemma len_hdr : forall (B name v : list Z), zlen B + zlen (name ++ v) + 2 = zlen (B ++ name ++ v ++ [0; 10]).
+Proof. intros. rewrite !zlen_app. change (zlen [0; 10]) with 2. lia. Qed.
+
+Definition answer (r : hsreq) : hs_result :=
+  match ws_accept (q_key r) with
+  | None => HsFault
+  | Some accept =>
+    let '(b64, proto) := chosen_protocol (q_proto r) in
+    HsOk (Some (q_path r)) b64
+      (match proto with
+       | [] => hs_noproto_0 ++ accept ++ hs_noproto_1
+       | _ => hs_proto_0 ++ accept ++ hs_proto_1 ++ proto ++ hs_proto_2
+       end)
+  end.
+
+Lemma nolf_app3 : forall a b c, forallb (fun x => negb (x =? 10)) a = true -> forallb (fun x => negb (x =? 10)) b = true ->
+  forallb (fun x => negb (x =? 10)) c = true -> forallb (fun x => negb (x =? 10)) (a ++ b ++ c) = true.
+Proof. intros. rewrite !forallb_app. rewrite H, H0, H1. reflexivity. Qed.
+
+Theorem handshake_roundtrip : forall r, req_ok r = true -> ws_handshake false (hs_print r) = answer r.
+Proof.
+  intros [path host origin key proto] Hok. unfold req_ok in Hok. cbn [q_path q_host q_origin q_key q_proto] in Hok.
+  repeat rewrite andb_true_iff in Hok. destruct Hok as [[[[[[Hp Hp1] Hh] Ho] Hk] Hpr] Hlen].
+  apply Z.leb_le in Hp1. apply Z.ltb_lt in Hlen.
+  pose proof (val_ok_no_lf _ Hp) as Np. pose proof (val_ok_no_lf _ Hh) as Nh. pose proof (val_ok_no_lf _ Ho) as No.
+  pose proof (val_ok_no_lf _ Hk) as Nk.
+  unfold ws_handshake. cbn [andb].
+  assert (prefix_cs s_rfb (hs_print (mkReq path host origin key proto)) = false) as E1 by reflexivity.
+  assert (prefix_cs s_get (hs_print (mkReq path host origin key proto)) = true) as E2 by reflexivity.
+  rewrite E1, E2. cbn [negb].
+  (* the lines, each as body ++ crlf ++ rest *)
+  set (T := proto_line proto ++ (s_version ++ s_v13 ++ crlf) ++ crlf) in *.
+  assert (hs_print (mkReq path host origin key proto) =
+          (s_get ++ path ++ http9) ++ crlf ++ (s_host ++ host) ++ crlf ++ (s_origin ++ origin) ++ crlf ++ (s_key ++ key) ++ crlf ++ T) as EP.
+  { unfold hs_print. cbn [q_path q_host q_origin q_key q_proto]. fold T. unfold s_http, http9, crlf. rewrite <- !app_assoc. reflexivity. }
+  rewrite EP in *. clear E1 E2.
+  assert (0 <= zlen T) as HT0 by apply zlen_nonneg.
+  rewrite !zlen_app in Hlen. change (zlen crlf) with 2 in Hlen. change (zlen s_get) with 4 in Hlen. change (zlen http9) with 9 in Hlen.
+  change (zlen s_host) with 6 in Hlen. change (zlen s_origin) with 8 in Hlen. change (zlen s_key) with 19 in Hlen.
+  pose proof (zlen_nonneg _ path). pose proof (zlen_nonneg _ host). pose proof (zlen_nonneg _ origin). pose proof (zlen_nonneg _ key).
+  (* line 1: GET *)
+  rewrite hs_loop_line; cbn [hs_buf hs_linestart hs_init];
+    [| apply nolf_app3; [reflexivity|assumption|reflexivity]
+     | change (zlen (@nil Z)) with 0; lia
+     | change (zlen (@nil Z)) with 0; rewrite !zlen_app; change (zlen s_get) with 4; change (zlen http9) with 9; lia
+     | change (zlen (@nil Z)) with 0; rewrite !zlen_app; change (zlen s_get) with 4; change (zlen http9) with 9; lia].
+  replace (([] : list Z) ++ (s_get ++ path ++ http9) ++ crlf) with (([] : list Z) ++ s_get ++ path ++ s_http)
+    by (unfold s_http, http9, crlf; rewrite <- !app_assoc; reflexivity).
+  unfold http9. rewrite (line_get hs_init [] path eq_refl Hp1 Hp). cbn [app].
+  set (B1 := s_get ++ path ++ 0 :: [72; 84; 84; 80; 47; 49; 46; 49; 13; 10]).
+  assert (0 + zlen (s_get ++ path ++ [32; 72; 84; 84; 80; 47; 49; 46; 49]) + 2 = zlen B1) as L1
+    by (subst B1; rewrite !zlen_app, !zlen_cons; change (zlen s_get) with 4; change (zlen (@nil Z)) with 0; lia).
+  change (zlen (@nil Z)) with 0. rewrite L1.
+  assert (zlen B1 = 15 + zlen path) as Z1 by (rewrite <- L1, !zlen_app; change (zlen s_get) with 4; change (zlen [32; 72; 84; 84; 80; 47; 49; 46; 49]) with 9; lia).
+  (* line 2: host *)
+  rewrite hs_loop_line; cbn [hs_buf hs_linestart];
+    [| rewrite forallb_app, Nh; reflexivity | lia | rewrite zlen_app; change (zlen s_host) with 6; lia
+     | rewrite zlen_app; change (zlen s_host) with 6; lia].
+  rewrite <- app_assoc. rewrite (line_host _ B1 host) by reflexivity. cbn [hs_path hs_origin hs_key1 hs_key2 hs_proto hs_sorigin hs_key hs_version hs_wspath].
+  rewrite len_hdr. set (B2 := B1 ++ s_host ++ host ++ [0; 10]).
+  assert (zlen B2 = zlen B1 + 8 + zlen host) as Z2 by (subst B2; rewrite !zlen_app; change (zlen s_host) with 6; change (zlen [0; 10]) with 2; lia).
+  (* line 3: origin *)
+  rewrite hs_loop_line; cbn [hs_buf hs_linestart];
+    [| rewrite forallb_app, No; reflexivity | lia | rewrite zlen_app; change (zlen s_origin) with 8; lia
+     | rewrite zlen_app; change (zlen s_origin) with 8; lia].
+  rewrite <- app_assoc. rewrite (line_origin _ B2 origin) by reflexivity. cbn [hs_path hs_host hs_key1 hs_key2 hs_proto hs_sorigin hs_key hs_version hs_wspath].
+  rewrite len_hdr. set (B3 := B2 ++ s_origin ++ origin ++ [0; 10]).
+  assert (zlen B3 = zlen B2 + 10 + zlen origin) as Z3 by (subst B3; rewrite !zlen_app; change (zlen s_origin) with 8; change (zlen [0; 10]) with 2; lia).
+  (* line 4: key *)
+  rewrite hs_loop_line; cbn [hs_buf hs_linestart];
+    [| rewrite forallb_app, Nk; reflexivity | lia | rewrite zlen_app; change (zlen s_key) with 19; lia
+     | rewrite zlen_app; change (zlen s_key) with 19; lia].
+  rewrite <- app_assoc. rewrite (line_key _ B3 key) by reflexivity. cbn [hs_path hs_host hs_origin hs_key1 hs_key2 hs_proto hs_sorigin hs_version hs_wspath].
+  rewrite len_hdr. set (B4 := B3 ++ s_key ++ key ++ [0; 10]).
+  assert (zlen B4 = zlen B3 + 21 + zlen key) as Z4 by (subst B4; rewrite !zlen_app; change (zlen s_key) with 19; change (zlen [0; 10]) with 2; lia).
+  (* the field strings in the final buffer *)
+  assert (forall Y, cstr (B4 ++ Y) (zlen B3 + 19) = key) as Ckey.
+  { intro Y. subst B4. replace ((B3 ++ s_key ++ key ++ [0; 10]) ++ Y) with ((B3 ++ s_key) ++ key ++ 0 :: (10 :: Y)) by (rewrite <- !app_assoc; reflexivity).
+    apply cstr_at; [assumption|]. rewrite zlen_app. reflexivity. }
+  subst T. destruct proto as [pv|]; cbn [proto_line] in *.
+  - (* with a protocol line *)
+    pose proof (val_ok_no_lf _ Hpr) as Npr. pose proof (zlen_nonneg _ pv).
+    rewrite !zlen_app in Hlen. change (zlen s_proto) with 24 in Hlen. change (zlen crlf) with 2 in Hlen.
+    change (zlen s_version) with 23 in Hlen. change (zlen s_v13) with 2 in Hlen.
+    replace ((s_proto ++ pv ++ crlf) ++ (s_version ++ s_v13 ++ crlf) ++ crlf) with ((s_proto ++ pv) ++ crlf ++ (s_version ++ s_v13) ++ crlf ++ crlf ++ [])
+      by (rewrite <- !app_assoc, app_nil_r; reflexivity).
+    rewrite hs_loop_line; cbn [hs_buf hs_linestart];
+      [| rewrite forallb_app, Npr; reflexivity | lia | rewrite zlen_app; change (zlen s_proto) with 24; lia
+       | rewrite zlen_app; change (zlen s_proto) with 24; lia].
+    rewrite <- app_assoc. rewrite (line_proto _ B4 pv) by reflexivity. cbn [hs_path hs_host hs_origin hs_key1 hs_key2 hs_sorigin hs_key hs_version hs_wspath].
+    rewrite len_hdr. set (B5 := B4 ++ s_proto ++ pv ++ [0; 10]).
+    assert (zlen B5 = zlen B4 + 26 + zlen pv) as Z5 by (subst B5; rewrite !zlen_app; change (zlen s_proto) with 24; change (zlen [0; 10]) with 2; lia).
+    rewrite hs_loop_line; cbn [hs_buf hs_linestart];
+      [| reflexivity | lia | rewrite zlen_app; change (zlen s_version) with 23; change (zlen s_v13) with 2; lia
+       | rewrite zlen_app; change (zlen s_version) with 23; change (zlen s_v13) with 2; lia].
+    rewrite <- app_assoc. rewrite (line_version _ B5) by reflexivity. cbn [hs_path hs_host hs_origin hs_key1 hs_key2 hs_proto hs_sorigin hs_key hs_wspath].
+    rewrite len_hdr. set (B6 := B5 ++ s_version ++ s_v13 ++ [0; 10]).
+    assert (zlen B6 = zlen B5 + 27) as Z6 by (subst B6; rewrite !zlen_app; change (zlen s_version) with 23; change (zlen s_v13) with 2; change (zlen [0; 10]) with 2; lia).
+    rewrite hs_loop_blank; cbn [hs_buf hs_linestart hs_key1]; try reflexivity; try lia.
+    unfold hs_finish, hs_field. cbn [hs_version hs_key hs_path hs_host hs_origin hs_sorigin hs_proto hs_wspath hs_buf hs_with_buf is_some andb orb negb].
+    change (13 =? 0) with false. cbv iota.
+    assert (cstr (B6 ++ crlf) (zlen B3 + 19) = key) as C1.
+    { subst B6 B5. rewrite <- !app_assoc. apply Ckey. }
+    assert (cstr (B6 ++ crlf) (zlen B4 + 24) = pv) as C2.
+    { subst B6 B5. replace (((B4 ++ s_proto ++ pv ++ [0; 10]) ++ s_version ++ s_v13 ++ [0; 10]) ++ crlf)
+        with ((B4 ++ s_proto) ++ pv ++ 0 :: (10 :: (s_version ++ s_v13 ++ [0; 10]) ++ crlf)) by (rewrite <- !app_assoc; reflexivity).
+      apply cstr_at; [assumption|]. rewrite zlen_app. reflexivity. }
+    rewrite C1, C2. unfold answer. cbn [q_key q_proto q_path chosen_protocol].
+    destruct (ws_accept key); [|reflexivity].
+    destruct (contains s_base64 pv); [reflexivity|]. destruct (contains s_binary pv); reflexivity.
+  - (* without *)
+    rewrite !zlen_app in Hlen. change (zlen crlf) with 2 in Hlen. change (zlen s_version) with 23 in Hlen. change (zlen s_v13) with 2 in Hlen.
+    change (zlen (@nil Z)) with 0 in Hlen.
+    replace ([] ++ (s_version ++ s_v13 ++ crlf) ++ crlf) with ((s_version ++ s_v13) ++ crlf ++ crlf ++ [])
+      by (cbn [app]; rewrite <- !app_assoc, app_nil_r; reflexivity).
+    rewrite hs_loop_line; cbn [hs_buf hs_linestart];
+      [| reflexivity | lia | rewrite zlen_app; change (zlen s_version) with 23; change (zlen s_v13) with 2; lia
+       | rewrite zlen_app; change (zlen s_version) with 23; change (zlen s_v13) with 2; lia].
+    rewrite <- app_assoc. rewrite (line_version _ B4) by reflexivity. cbn [hs_path hs_host hs_origin hs_key1 hs_key2 hs_proto hs_sorigin hs_key hs_wspath].
+    rewrite len_hdr. set (B6 := B4 ++ s_version ++ s_v13 ++ [0; 10]).
+    assert (zlen B6 = zlen B4 + 27) as Z6 by (subst B6; rewrite !zlen_app; change (zlen s_version) with 23; change (zlen s_v13) with 2; change (zlen [0; 10]) with 2; lia).
+    rewrite hs_loop_blank; cbn [hs_buf hs_linestart hs_key1]; try reflexivity; try lia.
+    unfold hs_finish, hs_field. cbn [hs_version hs_key hs_path hs_host hs_origin hs_sorigin hs_proto hs_wspath hs_buf hs_with_buf is_some andb orb negb].
+    change (13 =? 0) with false. cbv iota.
+    assert (cstr (B6 ++ crlf) (zlen B3 + 19) = key) as C1 by (subst B6; rewrite <- !app_assoc; apply Ckey).
+    rewrite C1. unfold answer. cbn [q_key q_proto q_path chosen_protocol].
+    destruct (ws_accept key); reflexivity.
+Qed.
+
+Example handshake_roundtrip_nonvacuous :
+  req_ok (mkReq [47; 119; 115] [104] [104; 116; 116; 112; 58; 47; 47; 104] [100; 71; 104; 108] (Some s_binary)) = true /\
+  req_ok (mkReq [47] [104] [120] [100; 71; 104; 108] None) = true.
+Proof. split; reflexivity. Qed.
+
+(* ---------------- refusal: the same request without its key line, or without its version line ---------------- *)
+Definition hs_print_nokey (r : hsreq) : list Z :=
+  (s_get ++ q_path r ++ s_http) ++ (s_host ++ q_host r ++ crlf) ++ (s_origin ++ q_origin r ++ crlf) ++
+  (s_version ++ s_v13 ++ crlf) ++ crlf.
+Definition hs_print_nover (r : hsreq) : list Z :=
+  (s_get ++ q_path r ++ s_http) ++ (s_host ++ q_host r ++ crlf) ++ (s_origin ++ q_origin r ++ crlf) ++
+  (s_key ++ q_key r ++ crlf) ++ crlf.
+
+Ltac zc := change (zlen s_host) with 6 in *; change (zlen s_origin) with 8 in *; change (zlen s_key) with 19 in *;
+  change (zlen s_version) with 23 in *; change (zlen s_v13) with 2 in *; change (zlen crlf) with 2 in *;
+  change (zlen s_get) with 4 in *; change (zlen http9) with 9 in *; change (zlen [0; 10]) with 2 in *; change (zlen (@nil Z)) with 0 in *.
+Ltac ln lem B v N :=
+  rewrite hs_loop_line; cbn [hs_buf hs_linestart];
+    [| rewrite forallb_app, N; reflexivity | lia | rewrite zlen_app; zc; lia | rewrite zlen_app; zc; lia];
+  rewrite <- app_assoc; rewrite (lem _ B v) by reflexivity;
+  cbn [hs_path hs_host hs_origin hs_key1 hs_key2 hs_proto hs_sorigin hs_key hs_version hs_wspath]; rewrite len_hdr.
+Ltac lv B :=
+  rewrite hs_loop_line; cbn [hs_buf hs_linestart];
+    [| reflexivity | lia | rewrite zlen_app; zc; lia | rewrite zlen_app; zc; lia];
+  rewrite <- app_assoc; rewrite (line_version _ B) by reflexivity;
+  cbn [hs_path hs_host hs_origin hs_key1 hs_key2 hs_proto hs_sorigin hs_key hs_version hs_wspath]; rewrite len_hdr.
+Ltac lget path Hp1 Hp :=
+  rewrite hs_loop_line; cbn [hs_buf hs_linestart hs_init];
+    [| apply nolf_app3; [reflexivity|assumption|reflexivity]
+     | zc; lia | rewrite !zlen_app; zc; lia | rewrite !zlen_app; zc; lia];
+  replace (([] : list Z) ++ (s_get ++ path ++ http9) ++ crlf) with (([] : list Z) ++ s_get ++ path ++ s_http)
+    by (unfold s_http, http9, crlf; rewrite <- !app_assoc; reflexivity);
+  unfold http9; rewrite (line_get hs_init [] path eq_refl Hp1 Hp); cbn [app].
+
+Theorem handshake_refuses_nokey : forall r, req_ok r = true -> ws_handshake false (hs_print_nokey r) = HsFail (Some (q_path r)).
+Proof.
+  intros [path host origin key proto] Hok. unfold req_ok in Hok. cbn [q_path q_host q_origin q_key q_proto] in Hok.
+  repeat rewrite andb_true_iff in Hok. destruct Hok as [[[[[[Hp Hp1] Hh] Ho] Hk] Hpr] Hlen].
+  apply Z.leb_le in Hp1. apply Z.ltb_lt in Hlen.
+  pose proof (val_ok_no_lf _ Hp) as Np. pose proof (val_ok_no_lf _ Hh) as Nh. pose proof (val_ok_no_lf _ Ho) as No.
+  unfold ws_handshake. cbn [andb].
+  assert (prefix_cs s_rfb (hs_print_nokey (mkReq path host origin key proto)) = false) as E1 by reflexivity.
+  assert (prefix_cs s_get (hs_print_nokey (mkReq path host origin key proto)) = true) as E2 by reflexivity.
+  rewrite E1, E2. cbn [negb]. clear E1 E2.
+  assert (hs_print_nokey (mkReq path host origin key proto) =
+          (s_get ++ path ++ http9) ++ crlf ++ (s_host ++ host) ++ crlf ++ (s_origin ++ origin) ++ crlf ++ (s_version ++ s_v13) ++ crlf ++ crlf ++ []) as EP.
+  { unfold hs_print_nokey. cbn [q_path q_host q_origin q_key q_proto]. unfold s_http, http9, crlf. rewrite <- !app_assoc. reflexivity. }
+  rewrite EP. clear EP.
+  unfold hs_print in Hlen. cbn [q_path q_host q_origin q_key q_proto] in Hlen. rewrite !zlen_app in Hlen.
+  change (zlen s_http) with 11 in Hlen. zc.
+  pose proof (zlen_nonneg _ path). pose proof (zlen_nonneg _ host). pose proof (zlen_nonneg _ origin). pose proof (zlen_nonneg _ key).
+  pose proof (zlen_nonneg _ (proto_line proto)).
+  lget path Hp1 Hp.
+  set (B1 := s_get ++ path ++ 0 :: [72; 84; 84; 80; 47; 49; 46; 49; 13; 10]).
+  assert (0 + zlen (s_get ++ path ++ [32; 72; 84; 84; 80; 47; 49; 46; 49]) + 2 = zlen B1) as L1
+    by (subst B1; rewrite !zlen_app, !zlen_cons; zc; lia).
+  change (zlen (@nil Z)) with 0. rewrite L1.
+  assert (zlen B1 = 15 + zlen path) as Z1 by (rewrite <- L1, !zlen_app, !zlen_cons; zc; lia).
+  ln line_host B1 host Nh. set (B2 := B1 ++ s_host ++ host ++ [0; 10]).
+  assert (zlen B2 = zlen B1 + 8 + zlen host) as Z2 by (subst B2; rewrite !zlen_app; zc; lia).
+  ln line_origin B2 origin No. set (B3 := B2 ++ s_origin ++ origin ++ [0; 10]).
+  assert (zlen B3 = zlen B2 + 10 + zlen origin) as Z3 by (subst B3; rewrite !zlen_app; zc; lia).
+  lv B3. set (B6 := B3 ++ s_version ++ s_v13 ++ [0; 10]).
+  assert (zlen B6 = zlen B3 + 27) as Z6 by (subst B6; rewrite !zlen_app; zc; lia).
+  rewrite hs_loop_blank; cbn [hs_buf hs_linestart hs_key1]; try reflexivity; try lia.
+Qed.
+
+Theorem handshake_refuses_nover : forall r, req_ok r = true -> ws_handshake false (hs_print_nover r) = HsFail (Some (q_path r)).
+Proof.
+  intros [path host origin key proto] Hok. unfold req_ok in Hok. cbn [q_path q_host q_origin q_key q_proto] in Hok.
+  repeat rewrite andb_true_iff in Hok. destruct Hok as [[[[[[Hp Hp1] Hh] Ho] Hk] Hpr] Hlen].
+  apply Z.leb_le in Hp1. apply Z.ltb_lt in Hlen.
+  pose proof (val_ok_no_lf _ Hp) as Np. pose proof (val_ok_no_lf _ Hh) as Nh. pose proof (val_ok_no_lf _ Ho) as No.
+  pose proof (val_ok_no_lf _ Hk) as Nk.
+  unfold ws_handshake. cbn [andb].
+  assert (prefix_cs s_rfb (hs_print_nover (mkReq path host origin key proto)) = false) as E1 by reflexivity.
+  assert (prefix_cs s_get (hs_print_nover (mkReq path host origin key proto)) = true) as E2 by reflexivity.
+  rewrite E1, E2. cbn [negb]. clear E1 E2.
+  assert (hs_print_nover (mkReq path host origin key proto) =
+          (s_get ++ path ++ http9) ++ crlf ++ (s_host ++ host) ++ crlf ++ (s_origin ++ origin) ++ crlf ++ (s_key ++ key) ++ crlf ++ crlf ++ []) as EP.
+  { unfold hs_print_nover. cbn [q_path q_host q_origin q_key q_proto]. unfold s_http, http9, crlf. rewrite <- !app_assoc. reflexivity. }
+  rewrite EP. clear EP.
+  unfold hs_print in Hlen. cbn [q_path q_host q_origin q_key q_proto] in Hlen. rewrite !zlen_app in Hlen.
+  change (zlen s_http) with 11 in Hlen. zc.
+  pose proof (zlen_nonneg _ path). pose proof (zlen_nonneg _ host). pose proof (zlen_nonneg _ origin). pose proof (zlen_nonneg _ key).
+  pose proof (zlen_nonneg _ (proto_line proto)).
+  lget path Hp1 Hp.
+  set (B1 := s_get ++ path ++ 0 :: [72; 84; 84; 80; 47; 49; 46; 49; 13; 10]).
+  assert (0 + zlen (s_get ++ path ++ [32; 72; 84; 84; 80; 47; 49; 46; 49]) + 2 = zlen B1) as L1
+    by (subst B1; rewrite !zlen_app, !zlen_cons; zc; lia).
+  change (zlen (@nil Z)) with 0. rewrite L1.
+  assert (zlen B1 = 15 + zlen path) as Z1 by (rewrite <- L1, !zlen_app, !zlen_cons; zc; lia).
+  ln line_host B1 host Nh. set (B2 := B1 ++ s_host ++ host ++ [0; 10]).
+  assert (zlen B2 = zlen B1 + 8 + zlen host) as Z2 by (subst B2; rewrite !zlen_app; zc; lia).
+  ln line_origin B2 origin No. set (B3 := B2 ++ s_origin ++ origin ++ [0; 10]).
+  assert (zlen B3 = zlen B2 + 10 + zlen origin) as Z3 by (subst B3; rewrite !zlen_app; zc; lia).
+  ln line_key B3 key Nk. set (B4 := B3 ++ s_key ++ key ++ [0; 10]).
+  assert (zlen B4 = zlen B3 + 21 + zlen key) as Z4 by (subst B4; rewrite !zlen_app; zc; lia).
+  rewrite hs_loop_blank; cbn [hs_buf hs_linestart hs_key1]; try reflexivity; try lia.
+Qed.
